@@ -220,7 +220,46 @@ Theorem C06_forbidden_only_on_mismatch :
 Proof. exact forbidden_only_on_mismatch. Qed.
 Print Assumptions C06_forbidden_only_on_mismatch.
 
-(* The stronger reading — the handshake of a request served by a client-certificate site was
+Definition open_site (a h : string) : site := mkS (bs a) (mkT (bs h) true TLS12 TLS13 [] [] [] true 0 [] false).
+Definition mtls_site (a h : string) : site := mkS (bs a) (mkT (bs h) true TLS12 TLS13 [] [] [] true 2 [] false).
+
+(* The stronger reading of the clause: the handshake of a request served by a site that demands
+   client certificates was governed by settings equal to that site's own (hence the same
+   client-certificate policy).  It holds for every site set keyed consistently (vhost key = TLS
+   host name, no 0.0.0.0 / :: spellings, no site answering for the router's fallback hosts through
+   "*" labels), every non-empty SNI without surrounding white space and every Host whose name
+   the router does not normalise further than the strict test does. *)
+Theorem C06_clientauth_policy_governs_partial :
+  forall dc bad sites g dflt conn sni rhost v s,
+  make_tls_config dc bad (map (fun s => Some (s_tls s)) sites) = MkGroup g ->
+  (forall s, In s sites -> vhost_key (s_addr s) = host (s_tls s) /\ key_of (host (s_tls s)) = host (s_tls s)) ->
+  match_host (vhosts sites) (bs "0.0.0.0"%string) = None ->
+  match_host (vhosts sites) (bs "::"%string) = None ->
+  mget (bs "*"%string) (vhosts sites) = None ->
+  serve sites (Some sni) rhost = Served v -> nth_error sites v = Some s -> demands (s_tls s) = true ->
+  trim_space sni = sni -> sni <> [] ->
+  route_host rhost = to_lower (req_hostname rhost) ->
+  exists k i c ob, get_config g dflt conn sni = Found k (i, c, ob) /\ build dc bad (s_tls s) = Some ob.
+Proof. exact clientauth_policy_governs. Qed.
+Print Assumptions C06_clientauth_policy_governs_partial.
+
+Example C06_clientauth_policy_governs_nonvacuous :
+  let sites := [mtls_site "*.a.com:443"%string "*.a.com"%string; open_site "b.com:443"%string "b.com"%string;
+                open_site ":443"%string ""%string] in
+  (exists g, make_tls_config (default_ciphers true) [] (map (fun s => Some (s_tls s)) sites) = MkGroup g) /\
+  (forall s, In s sites -> vhost_key (s_addr s) = host (s_tls s) /\ key_of (host (s_tls s)) = host (s_tls s)) /\
+  match_host (vhosts sites) (bs "0.0.0.0"%string) = None /\
+  match_host (vhosts sites) (bs "::"%string) = None /\
+  mget (bs "*"%string) (vhosts sites) = None /\
+  serve sites (Some (bs "X.a.com"%string)) (bs "x.A.com:443"%string) = Served 0 /\
+  route_host (bs "x.A.com:443"%string) = to_lower (req_hostname (bs "x.A.com:443"%string)).
+Proof.
+  split; [eexists; vm_compute; reflexivity|].
+  split; [intros s [<-|[<-|[<-|[]]]]; vm_compute; split; reflexivity|].
+  vm_compute. repeat split.
+Qed.
+
+(* Without those side conditions the stronger reading — the handshake of a request served by a client-certificate site was
    governed by that site's own policy — is false of the code.  Witnesses (each replayed on the
    real server, corpus/C06): empty SNI + empty Host with a local-IP site; a Host whose name is
    normalised once more by the router than by the strict test ([b:80]:90); 0.0.0.0 and ::
@@ -232,8 +271,6 @@ Definition served_under_foreign_policy (sites : list site) (dflt : bytes) (conn 
     serve sites (Some sni) rhost = Served v /\ nth_error sites v = Some s /\ demands (s_tls s) = true /\
     get_config g dflt conn sni = Found k (i, c, Some b) /\ b_cauth b <> cauth (s_tls s).
 
-Definition open_site (a h : string) : site := mkS (bs a) (mkT (bs h) true TLS12 TLS13 [] [] [] true 0 [] false).
-Definition mtls_site (a h : string) : site := mkS (bs a) (mkT (bs h) true TLS12 TLS13 [] [] [] true 2 [] false).
 
 Theorem C06_clientauth_policy_governs_refuted_empty_names :
   served_under_foreign_policy [open_site "127.0.0.1:443"%string "127.0.0.1"%string; mtls_site ":443"%string ""%string]
